@@ -335,3 +335,43 @@ Proof.
         by (vm_compute; reflexivity).
       rewrite forallb_forall in F. exact (F img Hi).
 Qed.
+
+(* ---------------------------------------------------------------------------------------------------------------
+   Tie to the source.  The functions *_g below are generated from /repo on every run by harness/cmd/gotrans
+   (gen/Trans*.v); the theorems say that, for ALL inputs, they compute what the hand-written model functions used in
+   the statements above compute (res_sim: the same value, or both an error, or both a panic), under the premises Go's
+   types provide.  A change to one of these Go functions that alters its behaviour makes the proof below fail. *)
+From GB Require Import Model.Header Model.Events Model.Rbr Model.Cell Base.GoSem Proofs.TransTactics Proofs.TransEquivCell Proofs.TransEquivMeta Proofs.TransEquivBitmap Proofs.TransEquivHeader Proofs.TransEquivEvents Proofs.TransEquivRbr.
+From GBGen Require Import TransCell TransMeta TransBitmap TransHeader TransEvents TransRbr.
+Open Scope Z_scope.
+
+Theorem C09_tie_cellLength : forall d pos typ meta,
+  wf_bytes d -> 0 <= typ < 256 -> 0 <= meta < 65536 -> Z.of_nat pos < 2 ^ 62 ->
+  res_sim (cellLength_g d (Z.of_nat pos) typ meta) (cell_length d pos typ meta).
+Proof. exact cellLength_equiv. Qed.
+Print Assumptions C09_tie_cellLength.
+
+Theorem C09_tie_newBitmap : forall d pos count,
+  Z.of_nat pos < 2 ^ 62 -> Z.of_nat count < 2 ^ 62 ->
+  res_sim (newBitmap_g d (Z.of_nat pos) (Z.of_nat count)) (res_map Bitmap_pos_of (new_bitmap d pos count)).
+Proof. exact newBitmap_equiv. Qed.
+Print Assumptions C09_tie_newBitmap.
+
+Theorem C09_tie_Bit : forall b i,
+  Z.of_nat i < 2 ^ 62 -> res_sim (Bitmap_Bit_g (Bitmap_of b) (Z.of_nat i)) (bit b i).
+Proof. exact Bitmap_Bit_equiv. Qed.
+Print Assumptions C09_tie_Bit.
+
+Theorem C09_tie_BitCount : forall fuel b,
+  Z.of_nat (bm_count b) < 2 ^ 62 -> (bm_count b < fuel)%nat ->
+  res_sim (Bitmap_BitCount_g fuel (Bitmap_of b)) (res_map Z.of_nat (bit_count b)).
+Proof. exact Bitmap_BitCount_equiv. Qed.
+Print Assumptions C09_tie_BitCount.
+
+Theorem C09_tie_Rows : forall fuel ev f tm,
+  wf_bytes ev -> hlen_byte f -> len ev < 2 ^ 61 -> wf_bytes (tm_types tm) -> meta_ok tm ->
+  rows_event ev -> (17 * length ev + 2 < fuel)%nat ->
+  res_sim (binlogEvent_Rows_g fuel ev (Format_of f) (TableMap_of tm)) (res_map Rows_of (ev_rows f tm ev)).
+Proof. exact binlogEvent_Rows_equiv. Qed.
+Print Assumptions C09_tie_Rows.
+
